@@ -351,6 +351,13 @@ SCOPE_TEMPLATES = [
     ('31', '(array:size(array:for-each([1, 2], function(${V}) { ${V} })), {OUT})', 'array-hof-parameter'),
     ('31', '(map:for-each(map{1: 2}, function(${V}, $w) { ${V} }), {OUT})', 'map-hof-parameter'),
     ('3', '(fold-left((1, 2), 0, function(${V}, $y) { ${V} + $y }), {OUT})', 'fold-parameter'),
+    # each activation of a function item has its own parameter binding: the parameter is read AFTER the inner call
+    ('3', '(let $k := 7, $f := function(${V}, $g) { if (${V} = 0) then 0 else $g(${V} - 1, $g) + ${V} } '
+          'return $f(4, $f), {OUT})', 'recursive-activation'),
+    ('3', '(let $f := function(${V}, $g) { if (${V} = 0) then 0 else $g(${V} - 1, $g) + ${V} } '
+          'return $f(3, $f), {OUT})', 'recursive-activation-no-closure'),
+    ('3', '(let $k := 1, $f := function(${V}) { ${V} * 2 }, $h := function(${V}) { $f(${V} + 1) + ${V} } '
+          'return $h(5), {OUT})', 'nested-activation-same-parameter-name'),
 ]
 
 
@@ -360,7 +367,8 @@ def expected_scope(template, binder, outer):
     t = {
         'for': [10, 20], 'some': [True], 'every': [True], 'let': [78], 'nested-for-shadowing': None,
         'some-in-predicate': [1, 2], 'hof-parameter': [2, 3], 'array-hof-parameter': [2],
-        'map-hof-parameter': [1], 'fold-parameter': [3],
+        'map-hof-parameter': [1], 'fold-parameter': [3], 'recursive-activation': [10],
+        'recursive-activation-no-closure': [6], 'nested-activation-same-parameter-name': [17],
     }
     if binder in ('some-inside-for',):
         return [True, 1, True, 2]
@@ -434,9 +442,54 @@ def check_scope(case, out):
                      '%s [%s %s] outer=%r: got %s expected %s' % (expr, ver, form, outer, norm, want))
 
 
+# ------------------------------------------------------------------ entry points agree
+def check_forms(case, out):
+    """select == iter_select == Selector.select == Selector.iter_select == token.get_results, each on fresh inputs"""
+    ver, expr, tz = case['ver'], case['expr'], case['tz']
+
+    def fresh_kw():
+        return dict(namespaces=dict(NS), variables=build_vars(case['vars']), timezone=tz)
+
+    def doc():
+        return make_doc(case['doc'], case['lib'])
+
+    def ref():
+        tok = PARSERS[ver](namespaces=dict(NS)).parse(expr)
+        return tok.get_results(XPathContext(doc(), **fresh_kw()))
+    forms = {
+        'select': lambda: elementpath.select(doc(), expr, parser=PARSERS[ver], **fresh_kw()),
+        'iter_select': lambda: list(elementpath.iter_select(doc(), expr, parser=PARSERS[ver], **fresh_kw())),
+        'Selector.select': lambda: Selector(expr, namespaces=dict(NS), parser=PARSERS[ver]).select(
+            doc(), variables=build_vars(case['vars']), timezone=tz),
+        'Selector.iter_select': lambda: list(Selector(expr, namespaces=dict(NS), parser=PARSERS[ver]).iter_select(
+            doc(), variables=build_vars(case['vars']), timezone=tz)),
+    }
+    rr = call(ref)
+    want = result_desc(rr, None)
+    out.nontrivial = rr[0] == 'ok'
+    out.dim('forms_reference_outcome', rr[0])
+    if tz is not None:
+        out.dim('forms_with_timezone', ver)
+    for how, fn in forms.items():
+        g = result_desc(call(fn), None)
+        out.dim('forms_comparisons', how)
+        w = want
+        if how.endswith('iter_select') and w[0] == 'ok' and (
+                not isinstance(w[1], list) or (w[1] and not isinstance(w[1][0], list))):
+            w = ['ok', [w[1]]]
+        if g != w and g != want:
+            out.fail('C05/forms-disagree/%s/%s' % (how, first_fn(expr)),
+                     '%s [%s tz=%s vars=%s]: %s gives %s, token.get_results on a fresh context gives %s' % (
+                         expr, ver, tz, case['vars'], how, str(g)[:200], str(want)[:200]))
+
+
 # ------------------------------------------------------------------ harness interface
 def check_case(kind, case):
     out = Outcome()
+    if kind == 'forms':
+        check_forms(case, out)
+        out.obs = '%s [%s tz=%s]' % (case['expr'], case['ver'], case['tz'])
+        return out
     if kind == 'purity':
         res = check_purity(case, out)
         out.nontrivial = res[0] == 'ok'
@@ -471,6 +524,10 @@ def run(h):
         h.case('purity', {'expr': expr, 'ver': r.choice(VERSIONS_FOR[cls]), 'doc': r.randrange(len(DOCS)),
                           'lib': r.choice(['et', 'lxml']), 'vars': g_vars(r, expr), 'tz': r.choice(TIMEZONES),
                           'form': r.choice(['select', 'iter_select', 'selector', 'token'])})
+    for _ in range(h.n(3000)):
+        cls, expr = r.choice(CORPUS)
+        h.case('forms', {'expr': expr, 'ver': r.choice(VERSIONS_FOR[cls]), 'doc': r.randrange(len(DOCS)),
+                         'lib': r.choice(['et', 'lxml']), 'vars': g_vars(r, expr), 'tz': r.choice(TIMEZONES)})
     for _ in range(h.n(2500)):
         cls, expr = r.choice(CORPUS)
         steps = []
@@ -494,7 +551,7 @@ def shrink(kind, case):
         for i in range(len(st)):
             if len(st) > 1:
                 yield dict(case, steps=st[:i] + st[i + 1:])
-    elif kind == 'purity':
+    elif kind in ('purity', 'forms'):
         if len(case['vars']) > 1:
             for k in list(case['vars']):
                 v = dict(case['vars'])
@@ -512,6 +569,10 @@ def floors(v):
         reasons.append('fewer than 1000 variable snapshots compared')
     if v.got('repeat_comparisons') < 3000:
         reasons.append('fewer than 3000 reused-vs-fresh comparisons')
+    if v.got('forms_comparisons') < 4000:
+        reasons.append('fewer than 4000 entry-point comparisons')
+    if v.got('forms_with_timezone') < 300:
+        reasons.append('fewer than 300 entry-point cases with an implicit timezone')
     if v.got('scope_probe') < 150:
         reasons.append('fewer than 150 scope probes')
     return reasons
